@@ -30,8 +30,7 @@ fn parse_headers(buf: &[u8]) -> Result<(Headers<'_>, &[u8]), HttpParsingError> {
 
         // require CRLF
         if nl == 0 || buf[nl - 1] != b'\r' {
-            buf = &buf[nl + 1..];
-            continue;
+            return Err(MalformedHeader);
         }
 
         let line = &buf[..nl - 1];
